@@ -101,6 +101,8 @@ struct TObs {
     /// AllStageMemberInfo { member }: (stage_id, is_member, per_address_limit) per stage
     all: Vec<(u64, Option<Vec<(u64, bool, u64)>>)>,
     member: Vec<(u64, Option<u64>)>,
+    /// first stage whose window contains the block time (from the Stages query); harness only
+    active: Option<u64>,
     stage_beyond_ok: bool,
     can: Vec<(u64, Option<bool>)>,
     admins: (Vec<u64>, bool),
@@ -147,10 +149,12 @@ fn all_stage_member_info(w: &World, a: u64) -> Option<Vec<(u64, bool, u64)>> {
 }
 fn observe_t(w: &World, probes: &[u64]) -> TObs {
     let c = w.query(&json!({"config": {}})).expect("config");
-    let nstages = match w.query(&json!({"stages": {}})) {
-        Ok(v) => v["stages"].as_array().map(|a| a.len()).unwrap_or(0) as u64,
-        Err(_) => 0,
-    };
+    let stages_v = w.query(&json!({"stages": {}})).ok();
+    let nstages = stages_v.as_ref().and_then(|v| v["stages"].as_array().map(|a| a.len())).unwrap_or(0) as u64;
+    let now = crate::chain::now(&w.app);
+    let active = stages_v.as_ref().and_then(|v| v["stages"].as_array().cloned()).and_then(|a| {
+        a.iter().position(|e| u64_of(&e["stage"]["start_time"]) <= now && now <= u64_of(&e["stage"]["end_time"])).map(|i| i as u64)
+    });
     let mut stages = vec![];
     for k in 0..nstages {
         let cnt = w
@@ -181,6 +185,7 @@ fn observe_t(w: &World, probes: &[u64]) -> TObs {
         has: probes.iter().map(|a| (*a, has_member(w, *a))).collect(),
         all: probes.iter().map(|a| (*a, all_stage_member_info(w, *a))).collect(),
         member: probes.iter().map(|a| (*a, member_query(w, *a))).collect(),
+        active,
         stage_beyond_ok: w.query(&json!({"stage": {"stage_id": nstages}})).is_ok(),
         can: SENDER_PROBES.iter().map(|a| (*a, w.can_execute(*a))).collect(),
         admins: w.admin_list(),
@@ -346,9 +351,17 @@ impl Mon {
     fn member_tiered(&mut self, opl: &str, w: &World, o: &TObs) {
         let raw = w.raw_members();
         for (a, r) in &o.member {
-            if let Some(c) = r {
-                if !raw.iter().any(|e| e.1 == *a && e.2 as u64 == *c && (e.0 as u64) < o.nstages) {
-                    self.flag(format!("C11:{}:{}:member-query-wrong", self.kind.label(), opl), format!("Member({}) = {} but no stage stores that", name(*a), c));
+            // the pair stored for the stage that is running now, if any
+            let stored = o.active.and_then(|k| raw.iter().find(|e| e.0 as u64 == k && e.1 == *a)).map(|e| e.2 as u64);
+            if self.kind == Kind::TieredFlex && *a >= FIRST_VALID && *r != stored {
+                self.flag(format!("C11:{}:{}:member-query-wrong", self.kind.label(), opl), format!("Member({}) = {:?}; running stage {:?} stores {:?}", name(*a), r, o.active, stored));
+            }
+        }
+        for (a, r) in &o.has {
+            let stored = o.active.map_or(false, |k| raw.iter().any(|e| e.0 as u64 == k && e.1 == *a));
+            if let Some(b) = r {
+                if *b != stored {
+                    self.flag(format!("C11:{}:{}:has-member-wrong", self.kind.label(), opl), format!("HasMember({}) = {}; running stage {:?}, stored there = {}", name(*a), b, o.active, stored));
                 }
             }
         }
